@@ -1490,7 +1490,7 @@ func Exec(c hx.Case) hx.Result {
 	for i, op := range c.Ops {
 		var r opResult
 		kind := ""
-		done := hx.WithTimeout(10*time.Second, func() {
+		done := hx.WithTimeout(30*time.Second, func() {
 			kind = hx.Try(func() { r = runOp(cmpName, op) })
 		})
 		if !done {
